@@ -45,6 +45,28 @@ def _ds_proc(maddress: str, daddress: str, host: str, shm_port: int) -> None:
 
 
 def run_case(case: dict, tcp_base: int, udp_base: int, prefix: str) -> dict:
+    """The case on a port block of its own. Another run of the same check at the same time (a sweep over seeded changes, mutation
+    probes) may take a port between the probe and the bind: the set-up is then repeated on another block -- a set-up that fails for
+    lack of a port says nothing about the code under test."""
+    import zmq
+
+    last: Exception | None = None
+    for attempt in range(5):
+        base = tcp_base if attempt == 0 else 1100 + (tcp_base - 1100 + 997 * attempt + 13 * (os.getpid() % 50)) % 31000
+        try:
+            return _run_case_once(case, base, udp_base, f"{prefix}a{attempt}" if attempt else prefix)
+        except zmq.error.ZMQError as e:
+            if e.errno != zmq.EADDRINUSE:
+                raise
+            last = e
+        except HarnessError as e:
+            if "did not start listening" not in str(e):
+                raise
+            last = e
+    raise HarnessError(f"no free port block for the real data plane after 5 attempts: {last}")
+
+
+def _run_case_once(case: dict, tcp_base: int, udp_base: int, prefix: str) -> dict:
     """case = {"datasets": [{"size": int, "at": [host indices]}], "script": [["transmit", di, src, dst] | ["fetch", di, src]]}"""
     import multiprocessing as mp
 
